@@ -4,10 +4,15 @@ package c05
 import (
 	"encoding/json"
 	"fmt"
+	"io"
+	"net/http"
+	"strings"
 
 	"github.com/tigerwill90/fox"
+	vs "github.com/tigerwill90/fox/verifsync"
 
 	. "verifharness/conc"
+	"verifharness/fx"
 	"verifharness/mc"
 )
 
@@ -135,6 +140,106 @@ func all() []*mc.Scenario {
 	return scs
 }
 
+// ---------------------------------------------------------------------------------------------
+// serving: concurrent requests that write responses (package-level buffers and pools on that path)
+// ---------------------------------------------------------------------------------------------
+
+// stepRW is an underlying writer without any optional interface; every Write is a scheduling point.
+type stepRW struct{ rw *fx.RW }
+
+func (s stepRW) Header() http.Header { return s.rw.Header() }
+func (s stepRW) WriteHeader(c int)   { s.rw.WriteHeader(c) }
+func (s stepRW) Write(p []byte) (int, error) {
+	vs.Step("underlying Write")
+	// copy now: the caller may reuse p
+	return s.rw.Write(append([]byte(nil), p...))
+}
+
+// stepReader yields n bytes of one letter in chunks, with a scheduling point before every Read.
+type stepReader struct {
+	b     byte
+	left  int
+	chunk int
+}
+
+func (r *stepReader) Read(p []byte) (int, error) {
+	vs.Step("source Read")
+	if r.left == 0 {
+		return 0, io.EOF
+	}
+	n := min(r.chunk, r.left, len(p))
+	for i := 0; i < n; i++ {
+		p[i] = r.b
+	}
+	r.left -= n
+	return n, nil
+}
+
+var serveKinds = []string{"Stream", "io.Copy", "String", "Blob", "Write"}
+
+func serveScenario(k0, k1 string) *mc.Scenario {
+	return &mc.Scenario{
+		Name:     "serving " + k0 + " || " + k1,
+		Describe: "two threads each serve one request whose handler sends 6 bytes of its own letter through " + k0 + " / " + k1 + " on an underlying writer without optional interfaces; scheduling points at every source Read and underlying Write",
+		Build: func() *mc.Instance {
+			f, err := fox.New()
+			if err != nil {
+				panic(err)
+			}
+			f.MustHandle("GET", "/s/{kind}/{letter}", func(c fox.Context) {
+				b := c.Param("letter")[0]
+				switch c.Param("kind") {
+				case "Stream":
+					c.Stream(200, "text/plain", &stepReader{b: b, left: 6, chunk: 2})
+				case "io.Copy":
+					io.Copy(c.Writer(), &stepReader{b: b, left: 6, chunk: 2})
+				case "String":
+					c.String(200, "%s", strings.Repeat(string(b), 6))
+				case "Blob":
+					c.Blob(200, "text/plain", []byte(strings.Repeat(string(b), 6)))
+				case "Write":
+					for i := 0; i < 3; i++ {
+						c.Writer().Write([]byte{b, b})
+					}
+				}
+			})
+			rws := []*fx.RW{fx.NewRW(), fx.NewRW()}
+			serve := func(i int, kind, letter string) func() {
+				return func() { f.ServeHTTP(stepRW{rws[i]}, fx.Req("GET", "", "/s/"+kind+"/"+letter)) }
+			}
+			return &mc.Instance{
+				Bodies: []func(){serve(0, k0, "A"), serve(1, k1, "B")},
+				Check: func(x *mc.Exec) (string, string, string) {
+					if x.S.Deadlock {
+						return "deadlock", "deadlock", x.S.DeadInfo
+					}
+					for t := 0; t < 2; t++ {
+						if pv, stk := x.S.PanicOf(t); pv != nil {
+							return "panic", "panic", fmt.Sprintf("thread %d: %v\n%s", t, pv, mc.NormStack(stk, 10))
+						}
+					}
+					for i, want := range []string{"AAAAAA", "BBBBBB"} {
+						if string(rws[i].Body) != want || rws[i].Code != 200 {
+							return "mixed", "response-mixes-requests", fmt.Sprintf("request %d received status %d body %q, want 200 %q", i, rws[i].Code, rws[i].Body, want)
+						}
+					}
+					return "ok", "", ""
+				},
+			}
+		},
+	}
+}
+
+func serveScenarios() []*mc.Scenario {
+	var out []*mc.Scenario
+	for i, a := range serveKinds {
+		for _, b := range serveKinds[i:] {
+			out = append(out, serveScenario(a, b))
+		}
+	}
+	return out
+}
+
 func init() {
 	mc.Register(&mc.Check{
 		ID:    "C05",
@@ -170,6 +275,18 @@ func init() {
 				mc.CountNontrivial(r)
 			},
 			Replay: func(c *mc.Ctx, cs json.RawMessage) string { return mc.ReplaySched(all(), cs) },
+		}, {
+			Name: "serving",
+			Run: func(c *mc.Ctx, r *mc.Result) {
+				bound := 3
+				if c.Quick() {
+					bound = 2
+				}
+				for _, sc := range serveScenarios() {
+					mc.Explore(c, r, "serving", sc, mc.ExploreOpts{Bound: bound})
+				}
+			},
+			Replay: func(c *mc.Ctx, cs json.RawMessage) string { return mc.ReplaySched(serveScenarios(), cs) },
 		}},
 	})
 }
